@@ -39,12 +39,15 @@ def gram():
     return GRAMMAR
 
 
+FILLER_MODE = ["name"]      # "name": sibling expression slots hold a declared variable; "const": a numeric literal
+
+
 def filler(sort: str, mult: str, kind: str, fname: str):
     """Canonical safe filler of a sibling position."""
     if sort == "expr":
         if mult == "?":
             return None
-        one = ast.Name("x", ast.Load())
+        one = ast.Name("x", ast.Load()) if FILLER_MODE[0] == "name" else ast.Constant(7)
         if mult == "*":
             if kind == "BoolOp":
                 return [ast.Name("x", ast.Load()), ast.Name("t", ast.Load())]
@@ -254,6 +257,18 @@ def replay_chunk(cases: List[Dict[str, Any]]):
         if faudit:
             out["viol"].append((f"evaluation-escapes:sweep-factory:{path}", f"running a sweep over accepted {expr!r} raised audit events {faudit}", {"expr": expr}))
         if not c["safe"]:
+            # the same forbidden element with LITERALS in the sibling positions (`not 0`, `~7`, `(7).real`, ...): acceptance of
+            # an element must not depend on what its neighbours are
+            FILLER_MODE[0] = "const"
+            try:
+                expr2 = concretise(c)
+            finally:
+                FILLER_MODE[0] = "name"
+            if expr2 is not None and expr2 != expr:
+                v2 = judge(expr2)[0]
+                if v2 == "accepted":
+                    out["viol"].append((f"accepted-forbidden:literal-siblings:via={hole_chain or 'root'}",
+                                        f"{expr2!r} contains a non-whitelisted element ({path}) but was accepted for compilation", {"expr": expr2, "case": c}))
             xverdict, _xd = judge_factory_explicit(expr)
             if xverdict == "accepted":
                 out["viol"].append((f"accepted-forbidden:sweep-factory-api:via={hole_chain or 'root'}",
